@@ -54,6 +54,7 @@ type PropSpec struct {
 	Harnesses   []HarnessSpec `json:"harnesses"`
 	Assumptions []string      `json:"assumptions"`
 	Outside     []string      `json:"outside_claim"`
+	Gen         []GenSpec     `json:"gen"`
 }
 
 type KnownFinding struct {
@@ -63,6 +64,7 @@ type KnownFinding struct {
 	Status   string `json:"status"`    // "open" or "fixed"
 	Commit   string `json:"commit,omitempty"`
 	What     string `json:"what"`
+	Predicate string `json:"predicate,omitempty"` // named witness predicate (see knownPredicates)
 	Where    []struct {
 		Label string `json:"label"`
 		Seq   int    `json:"seq"`
@@ -109,8 +111,14 @@ func fatal(err error) {
 }
 
 // overlayFiles maps virtual paths under /repo to real files under /verif/harness.
+// extraOverlay holds generated files (virtual path -> real path) for this run.
+var extraOverlay = map[string]string{}
+
 func overlayFiles() map[string]string {
 	m := map[string]string{}
+	for k, v := range extraOverlay {
+		m[k] = v
+	}
 	root := filepath.Join(verifDir, "harness")
 	filepath.Walk(root, func(p string, info os.FileInfo, err error) error {
 		if err != nil || info.IsDir() || !strings.HasSuffix(p, ".go") {
@@ -237,7 +245,28 @@ func cmdCheck(args []string) int {
 		}
 	}
 	tl := time.Now()
-	prog, byDir, err := loadProgram(dirs)
+	scratch, _ := os.MkdirTemp("", "verif-"+id+"-")
+	if !*keep {
+		defer os.RemoveAll(scratch)
+	}
+	os.MkdirAll(filepath.Join(scratch, "gen"), 0o755)
+	var genErr error
+	for _, g := range ps.Gen {
+		virt, real, err := generate(g, filepath.Join(scratch, "gen"))
+		if err != nil {
+			genErr = err
+			break
+		}
+		extraOverlay[virt] = real
+	}
+	var prog *ssa.Program
+	var byDir map[string]*ssa.Package
+	var err error
+	if genErr != nil {
+		err = genErr
+	} else {
+		prog, byDir, err = loadProgram(dirs)
+	}
 	if err != nil {
 		fmt.Printf("INCONCLUSIVE property=%s reason=%q\n", id, err.Error())
 		writeEvidence(id, *tier, seed, nil, nil, ps, time.Since(t0).Seconds(), 0, 0, []string{"load failure: " + err.Error()}, nil)
@@ -246,10 +275,6 @@ func cmdCheck(args []string) int {
 	loadS := time.Since(tl).Seconds()
 	fmt.Printf("loaded %d packages, built SSA in %.1fs\n", len(prog.AllPackages()), loadS)
 
-	scratch, _ := os.MkdirTemp("", "verif-"+id+"-")
-	if !*keep {
-		defer os.RemoveAll(scratch)
-	}
 	var reports []*harnessReport
 	var problems []string
 	type pending struct {
@@ -347,7 +372,7 @@ func cmdCheck(args []string) int {
 		if res.Solver.Unknown > 0 {
 			rep.Inconclusive = append(rep.Inconclusive, fmt.Sprintf("%d solver queries returned unknown (branches kept feasible)", res.Solver.Unknown))
 		}
-		if s.PathKinds["done"] == 0 {
+		if s.PathKinds["done"] == 0 && len(s.Violations) == 0 {
 			problems = append(problems, h.Fn+": no path completed (vacuous)")
 		}
 		if s.Asserts == 0 && len(s.Violations) == 0 {
@@ -560,6 +585,34 @@ func loadKnown() []KnownFinding {
 	return k
 }
 
+func nondetVal(w *interp.Witness, label string, seq int) (uint64, bool) {
+	for _, n := range w.Nondet {
+		if n.Label == label && n.Seq == seq {
+			return n.Value, true
+		}
+	}
+	return 0, false
+}
+
+// knownPredicates identify the specific inputs of a recorded finding, so that a different
+// violation of the same assertion is still reported.
+var knownPredicates = map[string]func(w *interp.Witness) bool{
+	// the enumerated range's first and last term differ above the two lowest 7-bit digits
+	"c07_two_digit_carry": func(w *interp.Witness) bool {
+		level, ok1 := nondetVal(w, "level", 0)
+		lo, ok2 := nondetVal(w, "lo", 0)
+		cnt, ok3 := nondetVal(w, "count", 0)
+		if !ok1 || !ok2 || !ok3 || level > 15 {
+			return false
+		}
+		shift := uint(level) * 4
+		hi := lo + cnt<<shift
+		sLo := (lo ^ 0x8000000000000000) >> shift
+		sHi := (hi ^ 0x8000000000000000) >> shift
+		return sLo>>14 != sHi>>14
+	},
+}
+
 func matchKnown(known []KnownFinding, id string, w *interp.Witness) *KnownFinding {
 	for i := range known {
 		k := &known[i]
@@ -567,6 +620,12 @@ func matchKnown(known []KnownFinding, id string, w *interp.Witness) *KnownFindin
 			continue
 		}
 		ok := true
+		if k.Predicate != "" {
+			f := knownPredicates[k.Predicate]
+			if f == nil || !f(w) {
+				continue
+			}
+		}
 		for _, c := range k.Where {
 			var v uint64
 			found := false
